@@ -64,9 +64,17 @@ Inductive result (A B : Type) := Ok (a : A) | Err (b : B).
 Arguments Ok {A B}. Arguments Err {A B}.
 
 (** ** memory *)
+(** the cells the iterator HOLDS: [l_cached] cells from its local index on, cyclically - what an Acquire load of the successor's index
+    has shown to be its own and what it has not yet published away.  A buffer cell outside them belongs to a neighbouring stage
+    (or will, as soon as the index is published): touching it is a data race waiting to happen, whatever a sequential run shows.
+    Reads and writes of buffer cells are DEFINED only inside this window - so every theorem that says a translated function runs
+    ([= Some ..]) also says that it touches nothing before the availability check has covered it and nothing after [advance]. *)
+Definition in_window (d : dst) (i : nat) : bool :=
+  (if l_index (d_l d) <=? i then i - l_index (d_l d) else i + length (d_slots d) - l_index (d_l d)) <? l_cached (d_l d).
+
 Definition rd (E : denv) (p : loc) : DM cell :=
   fun d => match p with
-           | LBuf i => if i <? length (d_slots d) then Some (nth i (d_slots d) 0%N, d) else None
+           | LBuf i => if (i <? length (d_slots d)) && in_window d i then Some (nth i (d_slots d) 0%N, d) else None
            | LSrc i => if i <? length (dn_src E) then Some (nth i (dn_src E) 0%N, d) else None
            | LDst i => if i <? length (d_out d) then Some (nth i (d_out d) 0%N, d) else None
            end.
@@ -74,7 +82,7 @@ Definition rd (E : denv) (p : loc) : DM cell :=
 (** raw store (no ledger) *)
 Definition st (p : loc) (v : cell) : DM unit :=
   fun d => match p with
-           | LBuf i => if i <? length (d_slots d) then Some (tt, set_slots_d (upd i v (d_slots d)) d) else None
+           | LBuf i => if (i <? length (d_slots d)) && in_window d i then Some (tt, set_slots_d (upd i v (d_slots d)) d) else None
            | LSrc _ => None                                   (* the source slice is shared: never written *)
            | LDst i => if i <? length (d_out d) then Some (tt, set_out_d (upd i v (d_out d)) d) else None
            end.
